@@ -111,13 +111,14 @@ Theorem quiescent_empty :
     (forall t, cnt s t = 0) /\ owner s = None /\ acq_empty s = true.
 Proof. exact quiescent_empty_lemma. Qed.
 
-(* ---- progress, under the guard that no thread makes a blocking exclusive request while it holds the
-   lock only shared (g_label; reachable_g = reachable by guarded labels only). *)
+(* ---- progress *)
 
-(* No lost wake-up: a thread inside wait() whose conflicting holders have all released has been notified ... *)
+(* No lost wake-up, in EVERY reachable state (no guard: since the repair of C15-LOST-WAKEUP-UPGRADE a shared holder
+   notifies whenever its own count reaches zero): a thread inside wait() whose conflicting holders have all released
+   has been notified ... *)
 Theorem no_lost_wakeup :
   forall (s : state) (t : tid) (r n : bool) (rest : list frame),
-    reachable_g s -> stk s t = ExWait r n :: rest -> others_hold s t = false -> n = true.
+    reachable s -> stk s t = ExWait r n :: rest -> others_hold s t = false -> n = true.
 Proof. exact no_lost_wakeup_lemma. Qed.
 
 (* ... and a notified waiter runs as soon as the RLock is free. *)
@@ -126,8 +127,10 @@ Theorem notified_waiter_enabled :
     stk s t = ExWait r true :: rest -> owner s = None -> exists s', step s (t, AGo) = Some s'.
 Proof. exact notified_waiter_enabled_lemma. Qed.
 
-(* No deadlock: in every guarded-reachable state in which some thread is inside or entering the lock,
-   some thread can run its next atomic section (pushes, i.e. program decisions, do not count). *)
+(* No deadlock, under the guard that no thread makes a blocking exclusive request while it holds the lock only shared
+   (g_label; reachable_g = reachable by guarded labels only; the guard is still needed because two simultaneous
+   upgraders wait for each other, see Refuted.v): in every guarded-reachable state in which some thread is inside or
+   entering the lock, some thread can run its next atomic section (pushes, i.e. program decisions, do not count). *)
 Theorem deadlock_free :
   forall s : state,
     reachable_g s -> (exists t, stk s t <> []) -> exists t s', step s (t, AGo) = Some s'.
@@ -199,13 +202,12 @@ Theorem path_quiescent_empty :
     forall p, tl_ref (getp ps p) = 0 /\ fd_ref (getp ps p) = 0 /\ pl_ref (getp ps p) = 0 /\ getk ps p = KNone.
 Proof. exact path_quiescent_lemma. Qed.
 
-(* No lost wake-up through path_lock: in every state reachable by guarded schedules (no blocking exclusive request
-   by a thread that is inside shared bodies only), a thread sitting in wait() of the path's ShareableThreadLock of
-   its process while no other thread holds that lock has been notified.  (Deadlock freedom of the whole path_lock
-   with several processes is NOT proved: it is checked on every executed schedule.) *)
+(* No lost wake-up through path_lock, in every reachable state: a thread sitting in wait() of the path's
+   ShareableThreadLock of a process while no other thread holds that lock has been notified.  (Deadlock freedom of the
+   whole path_lock with several processes is NOT proved: it is checked on every executed schedule.) *)
 Theorem path_no_lost_wakeup :
   forall (pof : tid -> nat) (ps : pstate) (p : nat) (t : tid) (r n : bool) (rest : list frame),
-    preachable_g pof ps -> stk (tl (getp ps p)) t = ExWait r n :: rest ->
+    preachable pof ps -> stk (tl (getp ps p)) t = ExWait r n :: rest ->
     others_hold (tl (getp ps p)) t = false -> n = true.
 Proof. exact path_no_lost_wakeup_lemma. Qed.
 
